@@ -28,15 +28,19 @@ TRUSTED_BASE = [
     "hand-written model GraphiqModel/Model/{Gauss,DMSem,Noise}.lean tied to compiler_base.py, noise_models.py, stabilizer/state.py, "
     "density_matrix/{state,functions,compiler}.py, stabilizer/compiler.py by this correspondence run",
     "Model/Tableau.lean (C07) for the per-branch tableau operations",
-    "clause (c) (DM = sum_k p_k rho(T_k): measurement-free circuits, and circuits whose measurements find all branches agreeing - the model's "
-    "nonUniform flag off, weight > 2e-8 - all n) is proved about the exact models (Properties/C06.lean: dm_equals_mixture, "
-    "dm_equals_mixture_with_uniform_measurements); the driver's per-input evaluation of both sides (n<=4) now only tests the compiled "
-    "definitions against numpy; the harness uses the same flag to separate finding F2 from a genuine backend disagreement",
+    "clause (c) (DM = sum_k p_k rho(T_k)) is proved about the exact models for measurement-free circuits and - for the repaired joint "
+    "MixedStabilizer.apply_measurement - for circuits with measurements, no condition on the outcomes (Properties/C06.lean: dm_equals_mixture, "
+    "dm_equals_mixture_with_measurements); the driver's per-input evaluation of both sides (n<=4) only tests the compiled definitions against numpy",
+    "two modelled versions of MixedStabilizer.apply_measurement: Mix.measure (repaired, joint) and Mix.measureOld (graphiq before the repair of "
+    "finding F2, per branch); `repaired()` probes the implementation once per process on the F2 witness and selects the model (driver token "
+    "meas=old); a backend disagreement after a measurement is the known finding F2 only on unrepaired code, an ordinary violation otherwise",
     "positivity of the *floating-point* matrix is checked by the oracle (min eigenvalue >= -1e-9), not proved",
     "harness, line protocol, logging noise wrappers, numpy reference converter",
 ]
 ASSUMPTIONS = [
-    "measurement_determinism in {0, 1} (probabilistic draws are C01's concern)",
+    "measurement_determinism in {0, 1} in the compile comparisons; the \"probabilistic\" setting of the repaired joint measurement is compared "
+    "separately with the draw np.random.random() scripted (measdraw_check: model Mix.measureDraw, plus a numpy oracle for the measured state); "
+    "np.random.randint is patched to fail there (the joint measurement must not draw per branch)",
     "additive noise on measurement-type operations is outside the quantifier (the DM compiler rejects it with ValueError, "
     "the stabilizer compiler ignores it); it is exercised in the malformed stream only, error class compared",
     "replacement noise models are outside the quantifier (placement branch modelled, state not)",
@@ -288,10 +292,38 @@ def run_impl(circ, backend, noise_sim, det):
     return out
 
 
+_REPAIRED = None
+
+
+def repaired():
+    """Is `MixedStabilizer.apply_measurement` the repaired, joint measurement (finding F2 fixed)?  Decided by behaviour, once per
+    process, on the witness of F2: the mixture {1/2: |0>, 1/2: |1>} measured with forced outcome 1.  The per-branch measurement of
+    graphiq before the repair keeps both branches and returns the outcomes [0, 1]; the joint measurement returns one outcome for the
+    whole mixture and keeps only the |1> branch with weight 1.  The answer selects the model the implementation is compared with
+    (`compileStabOld` / `compileStab`: driver token `meas=old`) and whether a backend disagreement after a measurement is the known
+    finding F2 (unrepaired code only) or an ordinary violation."""
+    global _REPAIRED
+    if _REPAIRED is None:
+        try:
+            from graphiq.backends.stabilizer.state import MixedStabilizer
+            from graphiq.backends.stabilizer.clifford_tableau import CliffordTableau
+            import graphiq.backends.stabilizer.functions.transformation as tr
+
+            t0 = CliffordTableau(1)
+            t1 = tr.x_gate(CliffordTableau(1), 0)
+            ms = MixedStabilizer(1)
+            ms.mixture = [(0.5, t0), (0.5, t1)]
+            outs = ms.apply_measurement(0, measurement_determinism=1)
+            _REPAIRED = (len(set(outs)) == 1 and len(ms.mixture) == 1 and abs(ms.mixture[0][0] - 1.0) < 1e-12)
+        except Exception:  # noqa: BLE001
+            _REPAIRED = False
+    return _REPAIRED
+
+
 def model_line(spec_or_circ, enc, backend, noise_sim, det, want_mixdm=False):
     ne, npn, nc = spec_or_circ
     return (f"noise.run be={backend} ns={1 if noise_sim else 0} ne={ne} np={npn} nc={nc} det={det} "
-            f"ops={enc}" + (" want=mixdm" if want_mixdm else ""))
+            f"ops={enc}" + (" want=mixdm" if want_mixdm else "") + ("" if repaired() or backend != "stab" else " meas=old"))
 
 
 def model_trace_to_log(trace, seq):
@@ -544,13 +576,13 @@ def check_case(res, drv, spec, mk_circ, det, noise_sim, tag, ref_clean=None):
         # which theorem of Properties/C06.lean speaks about this input (coverage record only): `dm_equals_mixture` (no measurement),
         # `dm_equals_mixture_with_uniform_measurements` (the model's nonUniform flag off), or neither (flag on: domain of finding F2)
         has_meas = any(KIND_OF_CLASS.get(type(o).__name__, "") in ("measz", "mcr", "ccnot", "ccz") for o in impl["stab"]["seq"])
-        res.branch(["clause-c:" + ("flag-on(F2-domain)" if reps["stab"].get("nonunif") == "1"
-                                   else ("uniform-measurements" if has_meas else "measurement-free"))])
+        res.branch(["clause-c:" + ("branches-disagree-at-a-measurement(former F2 domain)" if reps["stab"].get("nonunif") == "1"
+                                   else ("measurements" if has_meas else "measurement-free"))])
         if not du.mat_close(ref, rho):
             flags_nonunif = reps["stab"].get("nonunif") == "1"
             if m_loss and abs(float(np.trace(rho).real) - float(np.trace(ref).real)) > 1e-9:
                 res.violation(F_RENORM, "backends disagree: the density-matrix measurement renormalised away the photon-loss weight", input=inp)
-            elif m_noise and flags_nonunif:
+            elif m_noise and flags_nonunif and not repaired():
                 res.violation(F_BRANCH, "backends disagree after a measurement whose outcome distribution differs between the branches of the mixture",
                               input=inp)
             else:
@@ -561,7 +593,7 @@ def check_case(res, drv, spec, mk_circ, det, noise_sim, tag, ref_clean=None):
             if dm_ok and st_ok and reps["dm"].get("nan") != "1" and "m" in reps["stab"]:
                 a = du.parse_mat(reps["dm"]).key()
                 b = du.parse_mat(reps["stab"]).key()
-                if a != b and reps["stab"].get("nonunif") != "1":
+                if a != b and (repaired() or reps["stab"].get("nonunif") != "1"):
                     res.exact_break("model:dm-vs-mixture", input=inp, impl="agree", model="model's two backends differ")
     elif "err" in impl["stab"] and "state" in impl["dm"]:
         # D37: loss rate 1 followed by depolarizing empties the mixture
@@ -809,6 +841,66 @@ def check_malformed(res, drv, spec):
 
 
 @_g
+def measdraw_check(res, drv, spec, rng):
+    """repaired code only: the "probabilistic" setting of `MixedStabilizer.apply_measurement` — the draw `np.random.random()` is
+    scripted, the outcome rule `int(u * total >= weight[0])`, the candidate lists, the renormalisation and the outcome list are
+    compared with the model (`Mix.measureDraw`); direct oracle: total weight kept, one outcome for all branches, and the measured
+    state equals the post-selected, renormalised projection of the state before (numpy)."""
+    if not repaired():
+        return
+    from unittest import mock
+    from graphiq.backends.stabilizer.state import MixedStabilizer
+
+    n = spec["ne"] + spec["np"]
+    b = run_impl(build(spec)[0], "stab", True, 1)
+    if "state" not in b or not isinstance(b["state"].rep_data, MixedStabilizer):
+        return
+    ms = b["state"].rep_data
+    q = rng.randint(0, n - 1)
+    u = Fr(rng.randint(0, 96), 97)
+    before = [(float(p), t.copy()) for p, t in ms.mixture]
+    res.evaluations += 1
+    res.branch(["probabilistic-draw"])
+    inp = dict(spec=repr(spec), q=q, u=str(u), ops=b["enc"])
+    with mock.patch("numpy.random.random", lambda *a, **k: float(u)), \
+            mock.patch("numpy.random.randint", side_effect=AssertionError("randint must not be called by the joint measurement")):
+        try:
+            outs = ms.apply_measurement(q, measurement_determinism="probabilistic")
+        except Exception as e:  # noqa: BLE001
+            res.violation("mixture:measurement:probabilistic:raises", "the joint measurement raised in the probabilistic setting", input=inp,
+                          error=repr(e)[:160])
+            return
+    after = [(float(p), t) for p, t in ms.mixture]
+    rep_ = drv.ask(f"noise.measdraw ne={spec['ne']} np={spec['np']} nc={spec['nc']} ops={b['enc']} q={q} u={u}")
+    if rep_["_status"] != "ok":
+        res.exact_break("noise.measdraw:error-class", input=inp, impl="ok", model=rep_["_raw"][:200])
+        return
+    mm = parse_mix(rep_["mix"])
+    same = (len(mm) == len(after) and all(abs(float(w) - p) <= 1e-12 + 1e-9 * abs(p) and tabc(t) == ts for (p, t), (w, ts) in zip(after, mm))
+            and len(outs) == int(rep_["outs"]) and all(int(o) == int(rep_["outcome"]) for o in outs))
+    if not same:
+        res.exact_break("noise.measdraw:mixture", input=inp, impl=str([(round(p, 6), tabc(t)) for p, t in after])[:300] + f" outs={outs}",
+                        model=rep_["_raw"][:300])
+    # direct oracle (no model): one outcome, weight kept, state = renormalised projection
+    if n <= 4 and before:
+        o = int(outs[0]) if outs else 0
+        rho_b = sum(p * du.stab_density(t) for p, t in before)
+        dim = 2 ** n
+        diag = np.array([1.0 if ((i >> (n - 1 - q)) & 1) == o else 0.0 for i in range(dim)])
+        proj = np.diag(diag)
+        pr = float(np.trace(proj @ rho_b).real)
+        tot = float(np.trace(rho_b).real)
+        rho_a = sum(p * du.stab_density(t) for p, t in after) if after else np.zeros((dim, dim))
+        if len(set(int(x) for x in outs)) > 1:
+            res.violation("mixture:measurement:outcomes-differ", "the joint measurement returned different outcomes for different branches", input=inp)
+        elif pr > 1e-9:
+            want = proj @ rho_b @ proj * (tot / pr)
+            if not du.mat_close(want, rho_a):
+                res.violation("mixture:measurement:wrong-state", "the measured mixture is not the post-selected state with the total weight kept",
+                              input=inp)
+
+
+@_g
 def infidelity_check(res, spec, det, rng):
     """observe point `Infidelity.evaluate on both`: for a loss-free noisy circuit, a random pure stabilizer target gives the same value
     through the mixture (sum_k p_k F(T, T_k)) and through the density matrix (tr(rho sigma)); both equal the independent numpy value"""
@@ -852,7 +944,8 @@ def infidelity_check(res, spec, det, rng):
                       "a list of (p, tableau) but never returns it)", input=dict(spec=repr(spec), det=det), error=repr(e)[:160])
     if abs(v_s - v_d) > 1e-9:
         m_noise, _ = has_meas_after_noise(b["log"], b["seq"])
-        res.violation(F_BRANCH if m_noise else "infidelity:backends-differ", "Infidelity with a pure stabilizer target differs between the backends",
+        res.violation(F_BRANCH if (m_noise and not repaired()) else "infidelity:backends-differ",
+                      "Infidelity with a pure stabilizer target differs between the backends",
                       input=dict(spec=repr(spec), det=det), stab=float(v_s), dm=float(v_d))
 
 
@@ -951,6 +1044,8 @@ def run(ctx):
             res.violation("zero-strength:state-differs", "noise of zero strength does not reproduce the noiseless state", input=dict(ops=enc, det=det))
         if ci % 2 == 0:
             infidelity_check(res, spec, det, rng)
+        if ci % 3 == 0:
+            measdraw_check(res, drv, gen_circuit(rng, ctx.quick, with_meas=False, nmax=3 if ctx.quick else 4), rng)
     # ---- the whole placement domain for additive noise (exhaustive)
     grid = placement_grid()
     for gi, spec in enumerate(grid):
